@@ -168,7 +168,7 @@ func (h *harness) sectionFilterJoin() {
 	}
 	sort.Strings(mnames)
 	dists, repos := h.distPool(), h.repoPool()
-	n := h.cfg.N(2500, 150000)
+	n := h.cfg.N(15000, 150000)
 	for i := 0; i < n && !r.Stop(); i++ {
 		rec := h.genRec(dists, repos)
 		row := h.genRow(rec, dists, repos)
